@@ -68,6 +68,33 @@ Proof.
     + rewrite IH. split; intros H b; [intros [H1|H1]; [discriminate | apply (H b); auto] | intros H1; apply (H b); auto].
 Qed.
 
+(* ---------- the status after the loop over file_dep ([final_status]; fixL = the first reason decides) ---------- *)
+Lemma final_status_uptodate v db bl ch ms : (db = true -> bl = Run) ->
+  (final_status v db bl ch ms = UpToDate <-> ch = [] /\ ms = [] /\ bl = UpToDate).
+Proof.
+  intros H. unfold final_status.
+  destruct (fixL v), db; try (rewrite H by reflexivity); destruct ch, ms; simpl;
+    split; try discriminate; try (intros (H1 & H2 & H3); discriminate); tauto.
+Qed.
+(* nothing decided before the loop and no missing file (always so with get_log=False): the same in both versions *)
+Lemma final_status_nomissing v bl ch : final_status v false bl ch [] = if negb (is_nil ch) then Run else bl.
+Proof. unfold final_status. destruct (fixL v); reflexivity. Qed.
+Lemma final_status_decided_nomissing v ch : final_status v true Run ch [] = Run.
+Proof. unfold final_status. destruct (fixL v), ch; reflexivity. Qed.
+Lemma final_status_not_crash v db bl ch ms : bl <> Crash -> final_status v db bl ch ms <> Crash.
+Proof. intros H. unfold final_status. destruct (fixL v), db, ch, ms; simpl; auto; discriminate. Qed.
+Lemma final_status_error v db bl ch ms : bl <> Error -> final_status v db bl ch ms = Error -> ms <> [].
+Proof. intros H. unfold final_status. destruct (fixL v), db, ch, ms; simpl; auto; discriminate. Qed.
+(* the repaired rule, as the order of the calls *)
+Lemma final_status_fixL v db bl ch ms : fixL v = true ->
+  final_status v db bl ch ms =
+  if db then Run else if negb (is_nil ms) then Error else if negb (is_nil ch) then Run else bl.
+Proof. intros E. unfold final_status. rewrite E. reflexivity. Qed.
+Lemma final_status_legacy v db bl ch ms : fixL v = false ->
+  final_status v db bl ch ms =
+  if negb (is_nil ch) then Run else if negb (is_nil ms) then Error else bl.
+Proof. intros E. unfold final_status. rewrite E. reflexivity. Qed.
+
 Section StatusP.
 Variable md5 : N -> N.
 
@@ -313,15 +340,17 @@ Proof.
   { split; [discriminate | intros (_ & _ & _ & H & _); discriminate]. }
   fold (deps_changed v (getrec d t) df).
   destruct (check_files md5 v c fs (getrec d t) false (file_dep df) [] []) as [ch ms| |] eqn:E5; simpl.
-  - destruct ch as [|x ch]; simpl.
+  - rewrite final_status_uptodate by discriminate.
+    destruct ch as [|x ch]; simpl.
     + destruct ms as [|y ms]; simpl.
       * apply check_files_done_nil in E5. destruct E5 as (_ & _ & E5).
-        destruct (deps_changed v (getrec d t) df); simpl; split; try discriminate; try tauto.
-        intros (_ & _ & _ & _ & H & _); discriminate.
-      * split; [discriminate|]. intros (_ & _ & _ & _ & _ & H).
+        destruct (deps_changed v (getrec d t) df); simpl; split; try tauto.
+        -- intros (_ & _ & H); discriminate.
+        -- intros (_ & _ & _ & _ & H & _); discriminate.
+      * split; [intros (_ & H & _); discriminate|]. intros (_ & _ & _ & _ & _ & H).
         assert (E6 : check_files md5 v c fs (getrec d t) false (file_dep df) [] [] = FLDone [] [])
           by (apply check_files_done_nil; auto). congruence.
-    + split; [discriminate|]. intros (_ & _ & _ & _ & _ & H).
+    + split; [intros (H & _); discriminate|]. intros (_ & _ & _ & _ & _ & H).
       assert (E6 : check_files md5 v c fs (getrec d t) false (file_dep df) [] [] = FLDone [] [])
         by (apply check_files_done_nil; auto). congruence.
   - split; [discriminate|]. intros (_ & _ & _ & _ & _ & H).
@@ -344,23 +373,28 @@ Proof.
   unfold get_status. cbv zeta. fold (ck_changed c (getrec d t)). simpl.
   destruct (ck_changed c (getrec d t)) eqn:E4.
   { match goal with |- context [check_files ?a ?v0 ?b ?c' ?d' ?e ?f ?g ?h] => destruct (check_files a v0 b c' d' e f g h) as [ch ms| |] end; simpl.
-    - destruct ch, ms; simpl; rewrite ?orb_true_r; simpl; split; try discriminate; intros (_ & _ & _ & H & _); discriminate.
+    - rewrite final_status_uptodate by (intros _; rewrite ?orb_true_r; reflexivity).
+      rewrite ?orb_true_r. simpl. split; [intros (_ & _ & H); discriminate | intros (_ & _ & _ & H & _); discriminate].
     - split; [discriminate|]. intros (_ & _ & _ & H & _); discriminate.
     - split; [discriminate|]. intros (_ & _ & _ & H & _); discriminate. }
   fold (deps_changed v (getrec d t) df).
   destruct (check_files md5 v c fs (getrec d t) true (file_dep df) [] []) as [ch ms| |] eqn:E5; simpl.
-  - destruct ch as [|x ch]; simpl.
+  - rewrite final_status_uptodate.
+    2:{ destruct (is_nil (false_positions (map (eval_utd d t) (uptodate df)) 0)); simpl; auto;
+        destruct (is_nil (file_dep df) && is_nil (evaluated (map (eval_utd d t) (uptodate df)))); simpl; auto;
+        destruct (is_nil (filter (fun x => negb (exists_ fs x)) (targets df))); simpl; auto; discriminate. }
+    destruct ch as [|x ch]; simpl.
     + destruct ms as [|y ms]; simpl.
       * apply check_files_done_nil_gen in E5. destruct E5 as (_ & _ & E5).
         destruct (is_nil (false_positions (map (eval_utd d t) (uptodate df)) 0)); simpl;
         destruct (is_nil (file_dep df) && is_nil (evaluated (map (eval_utd d t) (uptodate df)))); simpl;
         destruct (is_nil (filter (fun x => negb (exists_ fs x)) (targets df))); simpl;
-        destruct (deps_changed v (getrec d t) df); simpl; split; try discriminate; try tauto;
-          intros (H1 & H2 & H3 & _ & H5 & _); discriminate.
-      * split; [discriminate|]. intros (_ & _ & _ & _ & _ & H).
+        destruct (deps_changed v (getrec d t) df); simpl; split; try tauto;
+          try (intros (_ & _ & H); discriminate); intros (H1 & H2 & H3 & _ & H5 & _); discriminate.
+      * split; [intros (_ & H & _); discriminate|]. intros (_ & _ & _ & _ & _ & H).
         assert (E6 : check_files md5 v c fs (getrec d t) true (file_dep df) [] [] = FLDone [] [])
           by (apply check_files_done_nil_gen; auto). congruence.
-    + split; [discriminate|]. intros (_ & _ & _ & _ & _ & H).
+    + split; [intros (H & _); discriminate|]. intros (_ & _ & _ & _ & _ & H).
       assert (E6 : check_files md5 v c fs (getrec d t) true (file_dep df) [] [] = FLDone [] [])
         by (apply check_files_done_nil_gen; auto). congruence.
   - split; [discriminate|]. intros (_ & _ & _ & _ & _ & H).
@@ -579,7 +613,8 @@ Proof.
   intros H.
   destruct (check_files md5 v c fs (getrec (if ck_changed c (getrec d t) then remove d t else d) t) gl (file_dep df) [] []) eqn:E; auto;
     exfalso; revert H; unfold get_status; cbv zeta; fold (ck_changed c (getrec d t)); rewrite E;
-    repeat (match goal with |- context [if ?b then _ else _] => destruct b end; simpl); discriminate.
+    repeat (match goal with |- context [if ?b then _ else _] => destruct b end; simpl);
+    first [discriminate | apply final_status_not_crash; discriminate].
 Qed.
 
 Lemma getrec_remove d t : getrec (remove d t) t = empty_rec.
@@ -637,7 +672,8 @@ Proof.
   pose proof (check_files_nolog v c fs (getrec (if ck_changed c (getrec d t) then remove d t else d) t) (file_dep df) [] []) as Hc.
   destruct (check_files md5 v c fs (getrec (if ck_changed c (getrec d t) then remove d t else d) t) false (file_dep df) [] []) as [ch ms|f|] eqn:E.
   - exfalso. simpl in Hc. subst ms. revert H. unfold get_status; cbv zeta; fold (ck_changed c (getrec d t)); rewrite E.
-    repeat (match goal with |- context [if ?b then _ else _] => destruct b end; simpl); discriminate.
+    repeat (match goal with |- context [if ?b then _ else _] => destruct b end; simpl);
+    first [discriminate | intros H; apply final_status_error in H; [apply H; reflexivity | discriminate]].
   - exists f. exact Hc.
   - exfalso. revert H. unfold get_status; cbv zeta; fold (ck_changed c (getrec d t)); rewrite E.
     repeat (match goal with |- context [if ?b then _ else _] => destruct b end; simpl); discriminate.
@@ -702,6 +738,124 @@ Lemma get_status_log_uptodate_iff_fv v c fs d t df :
 Proof.
   intros HA. rewrite get_status_log_uptodate_iff.
   split; intros (H1 & H2 & H3 & H4 & H5 & H6); repeat split; auto; apply (uptodate_verdicts v c fs _ df HA H5); auto.
+Qed.
+
+(* ---------- the two modes of get_status (get_log=True: `info`; get_log=False: `run`, `list --status`) ---------- *)
+Definition changed_b (v : ver) (c : ck) (fs : fsys) (r : rec) (f : file) : bool :=
+  match dep_verdict md5 v c fs r f with FChanged => true | _ => false end.
+Definition missing_b (v : ver) (c : ck) (fs : fsys) (r : rec) (f : file) : bool :=
+  match dep_verdict md5 v c fs r f with FMissing => true | _ => false end.
+
+(* get_log=True never stops in the loop: TypeError, or every changed and every missing dependency *)
+Lemma check_files_log_form v c fs r deps : forall ch ms,
+  check_files md5 v c fs r true deps ch ms = FLCrash \/
+  check_files md5 v c fs r true deps ch ms =
+    FLDone (rev ch ++ filter (changed_b v c fs r) deps) (rev ms ++ filter (missing_b v c fs r) deps).
+Proof.
+  induction deps as [|f deps IH]; intros ch ms; simpl.
+  - right. rewrite !app_nil_r. reflexivity.
+  - unfold changed_b, missing_b. destruct (dep_verdict md5 v c fs r f) eqn:E; auto.
+    + destruct (IH ch (f :: ms)) as [H|H]; [left; auto|right]. rewrite H. simpl. rewrite <- !app_assoc. reflexivity.
+    + destruct (IH (f :: ch) ms) as [H|H]; [left; auto|right]. rewrite H. simpl. rewrite <- !app_assoc. reflexivity.
+Qed.
+(* get_log=False on the same input, when get_log=True does not meet a TypeError: it stops at the first missing
+   dependency, and otherwise lists the same changed ones *)
+Lemma check_files_nolog_form v c fs r deps : forall ch ms,
+  check_files md5 v c fs r true deps ch ms <> FLCrash ->
+  check_files md5 v c fs r false deps ch ms =
+    match filter (missing_b v c fs r) deps with
+    | [] => FLDone (rev ch ++ filter (changed_b v c fs r) deps) (rev ms)
+    | f :: _ => FLError f
+    end.
+Proof.
+  induction deps as [|f deps IH]; intros ch ms; simpl.
+  - intros _. rewrite app_nil_r. reflexivity.
+  - unfold changed_b, missing_b. destruct (dep_verdict md5 v c fs r f) eqn:E; intros H.
+    + reflexivity.
+    + rewrite (IH (f :: ch) ms H). fold (missing_b v c fs r). fold (changed_b v c fs r).
+      destruct (filter (missing_b v c fs r) deps); [|reflexivity]. simpl. rewrite <- app_assoc. reflexivity.
+    + apply (IH ch ms H).
+    + congruence.
+Qed.
+(* a TypeError with get_log=False is one with get_log=True as well (the converse fails: get_log=True goes on
+   where get_log=False has stopped) *)
+Lemma check_files_crash_modes v c fs r deps ch ms :
+  check_files md5 v c fs r false deps ch ms = FLCrash -> check_files md5 v c fs r true deps ch ms = FLCrash.
+Proof.
+  intros H. destruct (check_files md5 v c fs r true deps ch ms) eqn:E; auto; exfalso;
+    rewrite check_files_nolog_form in H by congruence;
+    destruct (filter (missing_b v c fs r) deps); discriminate.
+Qed.
+
+Lemma get_status_crash_iff v c fs d t df :
+  g_status (get_status md5 v c fs d t df true) = Crash <->
+  check_files md5 v c fs (getrec (if ck_changed c (getrec d t) then remove d t else d) t) true (file_dep df) [] [] = FLCrash.
+Proof.
+  split; [apply get_status_crash|]. intros E.
+  unfold get_status; cbv zeta; fold (ck_changed c (getrec d t)). simpl. rewrite E. reflexivity.
+Qed.
+
+Lemma get_status_crash_modes v c fs d t df :
+  g_status (get_status md5 v c fs d t df false) = Crash -> g_status (get_status md5 v c fs d t df true) = Crash.
+Proof. intros H. apply get_status_crash_iff. apply check_files_crash_modes. apply get_status_crash in H. exact H. Qed.
+
+(* THE REPAIRED RULE (fixL): whenever get_log=True does not end in the TypeError, it answers exactly what
+   get_log=False answers -- up-to-date, run or error; no hypothesis on the files *)
+Lemma get_status_modes_agree_fixL v c fs d t df :
+  fixL v = true ->
+  g_status (get_status md5 v c fs d t df true) <> Crash ->
+  g_status (get_status md5 v c fs d t df true) = g_status (get_status md5 v c fs d t df false).
+Proof.
+  intros HL Hnc.
+  assert (Hc : check_files md5 v c fs (getrec (if ck_changed c (getrec d t) then remove d t else d) t) true (file_dep df) [] [] <> FLCrash).
+  { intros E. apply Hnc. apply get_status_crash_iff. exact E. }
+  clear Hnc.
+  pose proof (check_files_nolog_form v c fs _ (file_dep df) [] [] Hc) as Hn.
+  destruct (check_files_log_form v c fs (getrec (if ck_changed c (getrec d t) then remove d t else d) t) (file_dep df) [] []) as [Hl|Hl]; [congruence|].
+  clear Hc. simpl in Hn, Hl.
+  unfold get_status. cbv zeta. fold (ck_changed c (getrec d t)). simpl.
+  set (d1 := if ck_changed c (getrec d t) then remove d t else d) in *.
+  rewrite Hl.
+  destruct (is_nil (false_positions (map (eval_utd d t) (uptodate df)) 0)) eqn:E1; simpl;
+    [|rewrite final_status_fixL by exact HL; reflexivity].
+  destruct (is_nil (file_dep df) && is_nil (evaluated (map (eval_utd d t) (uptodate df)))) eqn:E2; simpl;
+    [rewrite final_status_fixL by exact HL; reflexivity|].
+  destruct (is_nil (filter (fun x => negb (exists_ fs x)) (targets df))) eqn:E3; simpl;
+    [|rewrite final_status_fixL by exact HL; reflexivity].
+  destruct (ck_changed c (getrec d t)) eqn:E4; simpl;
+    [rewrite final_status_fixL by exact HL; reflexivity|].
+  rewrite Hn. rewrite final_status_fixL by exact HL. simpl.
+  destruct (filter (missing_b v c fs (getrec d1 t)) (file_dep df)) as [|f ms]; simpl; [|reflexivity].
+  rewrite final_status_fixL by exact HL. reflexivity.
+Qed.
+
+(* ... in particular on a well-typed record (every state reached by a history, HistoryP), unconditionally *)
+Lemma get_status_modes_agree_typed v c fs d t df :
+  fixL v = true -> rec_typed (getrec d t) ->
+  g_status (get_status md5 v c fs d t df true) = g_status (get_status md5 v c fs d t df false).
+Proof. intros HL Hty. apply get_status_modes_agree_fixL; auto. apply get_status_no_crash; auto. Qed.
+
+(* the repair does not reach `run` / `list --status`: with get_log=False the flag is irrelevant *)
+Definition with_fixL (v : ver) (b : bool) : ver := {| fixA := fixA v; fixB := fixB v; fixC := fixC v; fixL := b |}.
+Lemma check_files_with_fixL v b c fs r gl deps : forall ch ms,
+  check_files md5 (with_fixL v b) c fs r gl deps ch ms = check_files md5 v c fs r gl deps ch ms.
+Proof.
+  induction deps as [|f deps IH]; intros ch ms; [reflexivity|].
+  cbn [check_files]. change (dep_verdict md5 (with_fixL v b) c fs r f) with (dep_verdict md5 v c fs r f).
+  destruct (dep_verdict md5 v c fs r f); auto; try (destruct gl; auto).
+Qed.
+Lemma get_status_nolog_fixL_irrelevant v b c fs d t df :
+  get_status md5 (with_fixL v b) c fs d t df false = get_status md5 v c fs d t df false.
+Proof.
+  unfold get_status. cbv zeta. fold (ck_changed c (getrec d t)). simpl.
+  destruct (is_nil (false_positions (map (eval_utd d t) (uptodate df)) 0)) eqn:E1; simpl; auto.
+  destruct (is_nil (file_dep df) && is_nil (evaluated (map (eval_utd d t) (uptodate df)))) eqn:E2; simpl; auto.
+  destruct (is_nil (filter (fun x => negb (exists_ fs x)) (targets df))) eqn:E3; simpl; auto.
+  destruct (ck_changed c (getrec d t)) eqn:E4; simpl; auto.
+  rewrite check_files_with_fixL.
+  pose proof (check_files_nolog v c fs (getrec d t) (file_dep df) [] []) as Hc.
+  destruct (check_files md5 v c fs (getrec d t) false (file_dep df) [] []) as [ch ms|f|]; auto.
+  simpl in Hc. subst ms. rewrite !final_status_nomissing. reflexivity.
 Qed.
 
 End StatusP.
